@@ -34,6 +34,17 @@ local function tailer() return hs[2]() end
 return r .. table.concat(parts) .. t[1] .. co(1) .. co(4) .. select("#", pcall(error, "e")) .. math.floor(3.7) .. os.time{year=2000, month=1, day=1, hour=0} .. dbg .. tailer()
 `
 
+const poolSrc = `
+local function rec(n, bottom) local a = n local r if n == 0 then r = bottom and bottom() or 0 else r = rec(n - 1, bottom) end if a ~= n then error("frame") end return r + n end
+if rec(20) ~= 210 then return "rec" end
+local ok, msg = pcall(rec, 20, function() error("E", 0) end)
+if ok or msg ~= "E" then return "pcall" end
+local co = coroutine.wrap(function() return rec(12, function() return coroutine.yield(1) end) end)
+if co() ~= 1 or co(100) ~= 178 then return "co" end
+if rec(30) ~= 465 then return "rec30" end
+return "ok"
+`
+
 const producerSrc = `for i = 1, N do ch:send(i) ch:send({i, tostring(i)}) end ch:close()`
 const consumerSrc = `local n = 0 while true do local ok, v = ch:receive() if not ok then break end n = n + 1 end return n`
 const selectSrc = `local n = 0 for i = 1, N do channel.select({"|<-", ch, function(ok, v) n = n + 1 end}, {"default", function() end}) end return n`
@@ -87,6 +98,25 @@ func main() {
 						mu.Unlock()
 					}
 				case 3: // create, open libraries, close
+				}
+				L.Close()
+			}
+		}(g)
+	}
+	// states with segmented call stacks: the segments come from a process-wide pool and go back to it
+	// when an error unwinds the stack and when the state is closed
+	for g := 0; g < 4; g++ {
+		wg.Add(1)
+		go func(g int) {
+			defer wg.Done()
+			for r := 0; r < rounds*4; r++ {
+				L := lua.NewState(lua.Options{MinimizeStackMemory: true, CallStackSize: 120})
+				err := L.DoString(poolSrc)
+				if err != nil || L.Get(-1).String() != "ok" {
+					mu.Lock()
+					bad++
+					fmt.Println("MISMATCH segmented call stack:", err, L.Get(-1))
+					mu.Unlock()
 				}
 				L.Close()
 			}
